@@ -56,6 +56,10 @@ import BlocV.DrvFE
 import BlocV.DrvC10
 -- END C10
 
+-- BEGIN C05
+import BlocV.DrvC05
+-- END C05
+
 open BlocV BlocV.Proto
 
 def specIRes : Spec.IRes → String
@@ -112,6 +116,9 @@ def handleTok (hex reader : String) : String :=
 -- END C13
 
 def handle (words : List String) : String :=
+  -- BEGIN C05
+  if let some r := DrvC05.handle words then r else
+  -- END C05
   -- BEGIN C10
   if let some r := DrvC10.handle words then r else
   -- END C10
